@@ -1,6 +1,7 @@
 SPECIFICATION Spec
 CONSTANTS
   OAuthEscapes = TRUE
+  SpecRouteEscaped = FALSE
   MaxSegs = 4
   MaxPayload = 2
   SegIds = {"docs", "swagger.json", "api", ".."}
